@@ -214,12 +214,10 @@ class SimEnv:
                     raise FAULTS[env.cfg.fault_exc]("begin failed")
 
             def end(self):
-                if getattr(env.cfg, "join_timeout", False) and self.max_chunks_per_worker <= 0 and \
-                        getattr(self, "replace_queue", None) is not None and not getattr(self, "_fault_hit", False):
-                    # the end() of a retiring worker takes its time: the process is still running for a while after it posted
-                    # its identifier (model: WPc.ending)
-                    env.sched.visible(f"end W{self.wid}")
-                    env.sched.record(f"end W{self.wid}")
+                # end() is a step of its own on every way out (stop order, retirement, an exception in begin() or the functor): the
+                # process is still running between what ended its loop and its exit (model: WPc.ending)
+                env.sched.visible(f"end W{self.wid}")
+                env.sched.record(f"end W{self.wid}")
                 env.logs.setdefault(self.wid, []).append("e")
                 if self.wid in env.cfg.end_fault:
                     raise EndFailed("end failed")
